@@ -12,6 +12,7 @@ import (
 	"runtime/metrics"
 	"sort"
 	"strings"
+	"sync"
 	"sync/atomic"
 	"syscall"
 	"testing"
@@ -439,6 +440,63 @@ func gen(t *rapid.T) (Case, []string) {
 	return c, classes
 }
 
+var firstUseMagic = []byte("\xff\xfeVERIF-CONCURRENT-FIRST-USE-BATCH")
+
+func setInflight(data []byte) {
+	if inflightMap != nil && len(data) <= len(inflightMap)-8 {
+		binary.LittleEndian.PutUint64(inflightMap, uint64(len(data)))
+		copy(inflightMap[8:], data)
+	}
+}
+
+// firstUseInputs: every registered constructor id of this shard's share followed by zero bytes, and a valid encoding.
+func firstUseInputs() [][]byte {
+	var out [][]byte
+	nsh := hx.NShards()
+	for i, id := range ids {
+		if i%nsh != run.Shard%nsh {
+			continue
+		}
+		out = append(out, append(binary.LittleEndian.AppendUint32(nil, id), make([]byte, 96)...))
+	}
+	return out
+}
+
+func firstUseBatch(inputs [][]byte) error {
+	const workers = 16
+	var ready, wg sync.WaitGroup
+	start := make(chan struct{})
+	errs := make([]error, workers)
+	for w := 0; w < workers; w++ {
+		ready.Add(1)
+		wg.Add(1)
+		go func(w int) {
+			defer wg.Done()
+			ready.Done()
+			<-start
+			for i := range inputs {
+				in := inputs[(i*(2*w+1)+w)%len(inputs)]
+				if err := hx.Safely(func() error {
+					_, _ = tl.DecodeUnknownObject(append([]byte{}, in...))
+					return nil
+				}); err != nil {
+					errs[w] = fmt.Errorf("under concurrent first use (16 goroutines) decoding % x…: %v", in[:8], err)
+					return
+				}
+			}
+		}(w)
+	}
+	ready.Wait()
+	close(start)
+	wg.Wait()
+	for _, e := range errs {
+		if e != nil {
+			return e
+		}
+	}
+	return nil
+}
+
 func TestC15(t *testing.T) {
 	setup()
 	if out := os.Getenv("VERIF_OUT"); out != "" {
@@ -463,6 +521,16 @@ func TestC15(t *testing.T) {
 		} else if err := evid.LoadReplay(p, &c); err != nil {
 			t.Fatal(err)
 		}
+		if bytes.Equal(c.Data, firstUseMagic) {
+			// the cold concurrent batch: this process is as fresh as the one that died
+			run.Case(true, 1)
+			run.Case(true, 2)
+			if err := firstUseBatch(firstUseInputs()); err != nil {
+				run.Violation(c, err.Error())
+				t.Fatalf("replay fails: %v", err)
+			}
+			return
+		}
 		run.Case(true, 1)
 		run.Case(true, 2)
 		targets := []string{c.Target}
@@ -477,6 +545,22 @@ func TestC15(t *testing.T) {
 				t.Fatalf("replay fails: %v", err)
 			}
 		}
+		return
+	}
+	t.Run("first-use-concurrent", func(t *testing.T) {
+		// nothing has been decoded in this process yet: 16 goroutines released together meet every constructor of this
+		// shard's share for the first time at the same moment (two clients of one process, each with its reading
+		// goroutine). A runtime abort ("concurrent map writes") cannot be recovered: the batch marker is in flight.
+		inputs := firstUseInputs()
+		setInflight(firstUseMagic)
+		if err := firstUseBatch(inputs); err != nil {
+			p := run.ViolationNamed("first-use-concurrent", Case{Data: firstUseMagic, Target: "unknown", How: "concurrent first use"}, err.Error())
+			t.Fatalf("violation (replay %s): %v", p, err)
+		}
+		run.Case(true, evid.Hash("first-use-concurrent", run.Shard), "first-use-concurrent")
+		run.Class("first-use-concurrent:decodes", int64(16*len(inputs)))
+	})
+	if t.Failed() {
 		return
 	}
 	t.Run("every-constructor-truncations", func(t *testing.T) {
